@@ -525,12 +525,34 @@ class EndpointResponseHandlerGenerator:
                 self._write_strategy_based_return(writer, strategy, context)
             writer.dedent()
 
-        # Handle default case
         default_response = next((r for r in op.responses if r.status_code == "default"), None)
+        default_returns = bool(default_response and default_response.content and strategy.return_type != "None")
+
+        # Remaining 4xx/5xx (undeclared, or declared as '4XX'/'5XX' or by a default without content): classified errors.
+        # A default response that is returned as a value answers the ranges the document does not declare itself.
+        declared_codes = {r.status_code.upper() for r in op.responses}
+        if not default_returns or "4XX" in declared_codes:
+            context.add_import(f"{context.core_package_name}.exceptions", "ClientError")
+            writer.write_line("case _ if 400 <= response.status_code < 500:")
+            writer.indent()
+            writer.write_line(
+                "raise ClientError(response=response, message=response.text, status_code=response.status_code)"
+            )
+            writer.dedent()
+        if not default_returns or "5XX" in declared_codes:
+            context.add_import(f"{context.core_package_name}.exceptions", "ServerError")
+            writer.write_line("case _ if 500 <= response.status_code < 600:")
+            writer.indent()
+            writer.write_line(
+                "raise ServerError(response=response, message=response.text, status_code=response.status_code)"
+            )
+            writer.dedent()
+
+        # Handle default case
         if default_response:
             writer.write_line("case _:  # Default response")
             writer.indent()
-            if default_response.content and strategy.return_type != "None":
+            if default_returns:
                 self._write_strategy_based_return(writer, strategy, context)
             else:
                 context.add_import(f"{context.core_package_name}.exceptions", "HTTPError")
